@@ -761,6 +761,7 @@ def run(ctx):
     if not getattr(ctx, "only", None) or "compose" in ctx.only:
         ctx.shards(shard_compose, (2, 3 if q else 4, _t.time() + (60 if q else 600)))
         ctx.shards(shard_compose, (3, 1 if q else 2, _t.time() + (60 if q else 900)))
+        ctx.shards(shard_compose, (4, 2 if q else 3, _t.time() + (60 if q else 900)))
 
     if q:
         tplan = [("T2(2,2)", "full", None), ("T2(2,3;-v)", "shapefmt", None), ("T2(3,2;-v)", "shapefmt", None),
